@@ -632,6 +632,19 @@ func TestReplay(t *testing.T) {
 		if key != "" {
 			r.Fail(t, key, msg, &c)
 		}
+	case "two":
+		var c TwoCase
+		if _, err := evid.ReplayCase(&c); err != nil {
+			t.Fatal(err)
+		}
+		key, msg, err := checkTwo(&c, t.TempDir())
+		if err != nil {
+			t.Fatalf("harness: %v", err)
+		}
+		r.Eval()
+		if key != "" {
+			r.Fail(t, key, msg, &c)
+		}
 	case "multi":
 		var c MultiCase
 		if _, err := evid.ReplayCase(&c); err != nil {
